@@ -111,6 +111,9 @@ def gen_session(rng, prepost=0.3):
                     t in tasks[x]["pre"] + tasks[x]["post"] for x in TASKS):
                 tasks[t][rng.choice(["pre", "post"])].append(other)
     request = [rng.choice(TASKS) for _ in range(rng.randint(1, 5))]
+    with_pp = [t for t in TASKS if tasks[t]["pre"] or tasks[t]["post"]]
+    if with_pp and not any(t in request for t in with_pp):
+        request[rng.randrange(len(request))] = rng.choice(with_pp)
     default = None
     if rng.random() < 0.12:
         request = []
@@ -303,7 +306,7 @@ def run(ctx):
     rng = ctx.rng
     drv = LeanDriver("drv_config")
     lines, rows_all, ran = [], [], []
-    for i in range(ctx.n(2500, 40000)):
+    for i in range(ctx.n(5000, 60000)):
         case = gen_session(rng, prepost=0.3 if i % 2 else 0.0)
         why, sig, ops, rows, record = check(case)
         tags = [r[0] for r in record]
